@@ -793,10 +793,20 @@ class Discharger:
         return None
 
     def d_unwrap(self, key, a, s):
+        bi = s['bi']
+        v = a.arg_val(bi, 0)
+        if v[0] == 'phi':
+            # `let r = if c { f(..) } else { g(..) }; r.expect(..)`: every alternative must be excluded on its own
+            res = [self._d_unwrap_one(key, a, s, x[1]) for x in v[1]]
+            if res and all(r is not None for r in res):
+                return res[0][0], ' / '.join(sorted({r[1] for r in res}))
+            return None
+        return self._d_unwrap_one(key, a, s, v)
+
+    def _d_unwrap_one(self, key, a, s, v):
         facts = self.facts
         bi, t = s['bi'], s['term']
         p = a.term_point(bi)
-        v = a.arg_val(bi, 0)
         if v[0] != 'call':
             return None
         path = v[1]
